@@ -1,2 +1,4 @@
 pub mod cluster;
 pub mod kv;
+pub mod pair;
+pub mod wire;
